@@ -35,23 +35,107 @@ def _unwrap_depends(r):
     return r, []
 
 
-def _common_selector(ci) -> Optional[str]:
-    """Name of the private method of the class that all four operations call (directly or through
-    other private methods) — the selector of a Switch / Coalesce — or None."""
+class Selector:
+    """The private helper that all four operations of a class go through: a method of the class or a
+    module-level function that is handed ``self``."""
+    __slots__ = ("kind", "name", "qualname", "module", "fn", "self_param")
+
+    def __init__(self, kind, name, qualname, module, fn, self_param=None):
+        self.kind, self.name, self.qualname, self.module, self.fn, self.self_param = kind, name, qualname, module, fn, self_param
+
+
+def _helpers_reached(repo, ci, op: str) -> Dict[str, Selector]:
+    """Private helpers reached from ``ci.op``: methods through self./cls./Class., module-level private functions
+    of the repository by name (whichever module they live in)."""
+    out: Dict[str, Selector] = {}
+    r0 = ci.find_method(op)
+    if r0 is None:
+        return out
+    work = [(r0[0].module, r0[1], True)]
+    seen = set()
+    while work:
+        m, fn, is_method = work.pop()
+        if id(fn) in seen:
+            continue
+        seen.add(id(fn))
+        for x in ast.walk(fn):
+            if isinstance(x, ast.Attribute) and isinstance(x.value, ast.Name) and x.value.id in ("self", "cls", ci.name):
+                r = ci.find_method(x.attr)
+                if r is not None and x.attr not in ("evaluate", "validate", "keys", "explain") and not (x.attr.startswith("__") and x.attr.endswith("__")) \
+                        and not any(ast.unparse(d) == "property" for d in r[1].decorator_list):
+                    out.setdefault(f"{ci.qualname}.{x.attr}", Selector("method", x.attr, f"{ci.qualname}.{x.attr}", r[0].module, r[1]))
+                    work.append((r[0].module, r[1], True))
+            elif isinstance(x, ast.Call) and isinstance(x.func, ast.Name) and x.func.id.startswith("_"):
+                rr = repo.resolve_name(m, x.func.id)
+                if rr and rr[0] == "func":
+                    fi = rr[1]
+                    sp = None
+                    ps = [a.arg for a in fi.node.args.posonlyargs + fi.node.args.args]
+                    for k_, a in enumerate(x.args):
+                        if isinstance(a, ast.Name) and a.id == "self" and k_ < len(ps):
+                            sp = ps[k_]
+                    for kw_ in x.keywords:
+                        if isinstance(kw_.value, ast.Name) and kw_.value.id == "self" and kw_.arg:
+                            sp = kw_.arg
+                    if fi.qualname not in out or (sp and out[fi.qualname].self_param is None):
+                        out[fi.qualname] = Selector("func", fi.name, fi.qualname, fi.module, fi.node, sp)
+                    work.append((fi.module, fi.node, False))
+    return out
+
+
+def _selector(repo, ci) -> Optional[Selector]:
+    """The outermost private helper common to evaluate/validate/keys/explain — the selector of a Switch / Coalesce."""
     common = None
+    table: Dict[str, Selector] = {}
     for op in ("evaluate", "validate", "keys", "explain"):
-        reach = {mn for mn, mfn in astu.reachable_self_methods(ci, [op]).items()
-                 if mn not in ("evaluate", "validate", "keys", "explain") and not (mn.startswith("__") and mn.endswith("__"))
-                 and not any(ast.unparse(d) == "property" for d in mfn.decorator_list)}
-        common = reach if common is None else (common & reach)
+        reach = _helpers_reached(repo, ci, op)
+        for k, v in reach.items():
+            if k not in table or (v.self_param and not table[k].self_param):
+                table[k] = v
+        common = set(reach) if common is None else (common & set(reach))
     if not common:
         return None
-    # the outermost one: not reached from another common private method
     inner = set()
-    for mn in common:
-        inner |= {x for x in astu.reachable_self_methods(ci, [mn]) if x != mn}
+    for q in common:
+        s = table[q]
+        # helpers reached from this one
+        sub = {}
+        work = [(s.module, s.fn)]
+        seen = set()
+        while work:
+            m, fn = work.pop()
+            if id(fn) in seen:
+                continue
+            seen.add(id(fn))
+            for x in ast.walk(fn):
+                if isinstance(x, ast.Attribute) and isinstance(x.value, ast.Name) and x.value.id in ("self", "cls", ci.name) and f"{ci.qualname}.{x.attr}" in common:
+                    if f"{ci.qualname}.{x.attr}" != q:
+                        inner.add(f"{ci.qualname}.{x.attr}")
+                        work.append((table[f"{ci.qualname}.{x.attr}"].module, table[f"{ci.qualname}.{x.attr}"].fn))
+                elif isinstance(x, ast.Call) and isinstance(x.func, ast.Name):
+                    rr = repo.resolve_name(m, x.func.id)
+                    if rr and rr[0] == "func" and rr[1].qualname in common and rr[1].qualname != q:
+                        inner.add(rr[1].qualname)
+                        work.append((rr[1].module, rr[1].node))
     outer = sorted(common - inner) or sorted(common)
-    return outer[0]
+    return table[outer[0]]
+
+
+def _common_selector(ci) -> Optional[str]:
+    """Name of the selector when it is a private method of the class (see _selector)."""
+    s = _selector(ci.repo, ci)
+    return s.name if s is not None and s.kind == "method" else None
+
+
+def selector_paths(repo, ci, s: Selector):
+    """Interpreter paths of the selector with ``self`` the abstract object of the class."""
+    if s.kind == "method":
+        return analyse_method(Ctx(repo), ci, s.name)
+    from .interp import SELF, analyse_function
+    ctx = Ctx(repo)
+    ctx.root_cls = ci
+    env = {s.self_param: SELF} if s.self_param else {}
+    return analyse_function(ctx, s.module, s.fn, env=env)
 
 
 # ------------------------------------------------------------------ R-SO
@@ -64,12 +148,13 @@ def rule_SO(run: Run) -> RuleResult:
     # ---- Switch._lookup
     sw = repo.cls("Switch")
     # the selector is the private method that all four operations of Switch go through (whatever its name)
-    sel = _common_selector(sw)
-    if sel is None:
-        raise AnalysisError("Switch: no private selector method shared by evaluate/validate/keys/explain (anchor vanished)")
-    f = sw.module.relpath
-    ln = sw.find_method(sel)[1].lineno
-    ps = analyse_method(Ctx(repo), sw, sel)
+    sel_s = _selector(repo, sw)
+    if sel_s is None:
+        raise AnalysisError("Switch: no private selector shared by evaluate/validate/keys/explain (anchor vanished)")
+    sel = sel_s.name
+    f = sel_s.module.relpath
+    ln = sel_s.fn.lineno
+    ps = selector_paths(repo, sw, sel_s)
     res.count("paths", len(ps))
     DISP = "Val(evaluate,Child(dispatch))"
     ok_idx = ok_hit = ok_miss = ok_fail = ok_end = True
@@ -139,8 +224,7 @@ def rule_SO(run: Run) -> RuleResult:
     res.add("labrea.conditional.Switch._lookup:all five outcomes present, each ends in a node or a raise", ok_end, f, ln, d_end or "5 outcomes", nec)
     for op in ("evaluate", "validate", "keys", "explain"):
         fn = sw.methods[op]
-        ok = any(isinstance(c.func, ast.Attribute) and astu.is_self_attr(c.func, sel) for mn_, mfn_ in astu.reachable_self_methods(sw, [op]).items()
-                 if mn_ == op or mn_ not in ("evaluate", "validate", "keys", "explain") for c in astu.calls_in(mfn_))
+        ok = sel_s.qualname in _helpers_reached(repo, sw, op)
         res.add(f"labrea.conditional.Switch.{op}:goes through _lookup", ok, f, fn.lineno, f"same selector ({sel}) in all four operations", nec)
 
     # ---- CaseWhen._evaluate
@@ -217,9 +301,9 @@ def rule_SO(run: Run) -> RuleResult:
 
     # ---- Coalesce._delegate
     co = repo.cls("Coalesce")
-    dsel = _common_selector(co)
-    f = co.module.relpath
-    ln = co.find_method(dsel or "evaluate")[1].lineno
+    dsel_s = _selector(repo, co)
+    f = dsel_s.module.relpath if dsel_s is not None else co.module.relpath
+    ln = dsel_s.fn.lineno if dsel_s is not None else co.find_method("evaluate")[1].lineno
     ok_c = True
     d_c = ""
     n = 0
@@ -677,6 +761,23 @@ def rule_EO(run: Run) -> RuleResult:
             d = f"evaluate(options)(x) = {k[:100]} with rest {'present' if has_rest else 'absent' if has_rest is False else 'unknown'}"
     ok = ok and saw == {"rest", "norest"}
     res.add("labrea.pipeline.Pipeline.evaluate:rest applied innermost, tail last", ok, pl.module.relpath, fn.lineno, d or "lambda x: tail(rest(x))", nec)
+    # every step is evaluated by evaluate() itself: calling the function it returns issues no further operation
+    for cn_ in ("Pipeline", "PipelineStep"):
+        c_ = repo.cls(cn_)
+        late = None
+        n_ret = 0
+        for p in analyse_method_result_call(Ctx(repo), c_, "evaluate", [Sym("x")]):
+            cut = [i for i, e in enumerate(p.events) if e.kind == "return" and e.depth == 0]
+            if not cut:
+                continue
+            n_ret += 1
+            for e in p.events[cut[0] + 1:]:
+                if e.kind in ("op", "selfop") and late is None:
+                    late = (e.line, f"{e.op} of {e.target.key()[:50] if e.target is not None else '?'} happens when the returned function is called (line {e.line})")
+        res.add(f"{c_.qualname}.evaluate:all steps are evaluated before the function is returned", late is None and n_ret > 0, c_.module.relpath,
+                late[0] if late else c_.find_method("evaluate")[1].lineno, late[1] if late else f"{n_ret} returning paths; no operation inside the returned function",
+                "a step evaluated only when the returned function is called issues its requests outside the evaluation: under whatever runtime is current "
+                "then, unseen by a handler installed around the evaluation (C18), and after the pipeline has already 'succeeded' (C06, C12)")
     for cn in ("Pipeline", "PipelineStep"):
         c = repo.cls(cn)
         fn = c.methods.get("transform")
@@ -710,6 +811,57 @@ def rule_EO(run: Run) -> RuleResult:
     return res
 
 
+# ------------------------------------------------------------------ R-ON
+DERIVED_OK = {
+    ("Namespace", "_members[*].build()"): "an _Auto entry is not an expression itself: it builds its Option on demand",
+    ("Bind", "func()"): "the bound function produces the expression to evaluate from the source value",
+}
+
+
+def rule_ON(run: Run) -> RuleResult:
+    """Operations name the object the user built, never a copy made on the way."""
+    res = RuleResult("R-ON")
+    nec = ("a request names the object it operates on; an operation issued on a copy derived from a child on the fly (child.with_options(…), "
+           "child.copy(), …) names an anonymous object: a handler that recognises the user's dataset by identity neither sees nor can "
+           "substitute it there, although it does wherever else the dataset is used (C18)")
+    import re as _re
+    n = 0
+    for cls in run.node_classes():
+        kinds = _children_kind(run, cls)
+        for op in ("evaluate", "validate", "keys", "explain"):
+            owner, fn = cls.find_method(op)
+            seen = {}
+            for p in run.paths(cls, op):
+                for e in p.events:
+                    if e.kind != "op" or not isinstance(e.target, Child):
+                        continue
+                    m_ = _re.match(r"^(.*)\.(\w+)\(\)$", e.target.path)
+                    if not m_:
+                        continue
+                    seen.setdefault(e.target.path, e.line)
+            for path, line in sorted(seen.items()):
+                n += 1
+                why = DERIVED_OK.get((cls.name, path))
+                meth = path.rsplit(".", 1)[-1][:-2]
+                definers = [c for c in run.repo.classes.values() if meth in c.methods and not c.module.name.startswith("labrea.mypy")]
+                if why is None and definers and not any(c.is_subclass_of("Evaluatable") or c.is_subclass_of("Effect") for c in definers):
+                    # the method belongs to a helper class that is not an expression itself (an _Auto entry builds its Option on demand)
+                    why = f"{meth}() is a method of {sorted(c.name for c in definers)}, not of an expression: its result is the expression it builds on demand"
+                res.add(f"{cls.qualname}:{op}:operates on {path}", why is not None, owner.module.relpath, line,
+                        why or f"{cls.name}.{op} issues {op} on the result of calling a method of a child ({path}) — a fresh object, not the one the expression was built from", nec)
+    res.count("derived targets", n)
+    res.count("classes", len(run.node_classes()))
+    return res
+
+
+def _children_kind(run: Run, cls) -> Dict[str, str]:
+    out = {}
+    for c in reversed(cls.mro()):
+        for a, ann in c.annotations.items():
+            out[a] = annotation_kind(run.repo, c.module, ann)
+    return out
+
+
 # ------------------------------------------------------------------ R-RG
 def rule_RG(run: Run) -> RuleResult:
     res = RuleResult("R-RG")
@@ -726,7 +878,7 @@ def rule_RG(run: Run) -> RuleResult:
     for c_ in astu.calls_in(fn):
         if isinstance(c_.func, ast.Name):
             r_ = repo.resolve_name(im.module, c_.func.id)
-            if r_ and r_[0] == "func" and r_[1].module is im.module and r_[1] not in helpers:
+            if r_ and r_[0] == "func" and (r_[1].module is im.module or r_[1].name.startswith("_")) and r_[1] not in helpers:
                 helpers.append(r_[1])
     changed_ = True
     while changed_:
@@ -734,8 +886,8 @@ def rule_RG(run: Run) -> RuleResult:
         for h_ in list(helpers):
             for c_ in astu.calls_in(h_.node):
                 if isinstance(c_.func, ast.Name):
-                    r_ = repo.resolve_name(im.module, c_.func.id)
-                    if r_ and r_[0] == "func" and r_[1].module is im.module and r_[1] not in helpers:
+                    r_ = repo.resolve_name(h_.module, c_.func.id)
+                    if r_ and r_[0] == "func" and (r_[1].module is h_.module or r_[1].name.startswith("_")) and r_[1] not in helpers:
                         helpers.append(r_[1])
                         changed_ = True
     ctx.no_inline = {h_.node.name for h_ in helpers} | {"lift"}
@@ -807,21 +959,33 @@ def rule_ID(run: Run) -> RuleResult:
     if fn is None:
         raise AnalysisError("Interface.__init__ not found")
     f = it.module.relpath
-    n = 0
-    for c in astu.calls_in(fn):
-        nm = astu.short_name(c)
-        if nm in ("dataset", "abstractdataset"):
-            n += 1
-            ok = any(k.arg == "dispatch" and ast.unparse(k.value) == "dispatch" for k in c.keywords)
-            res.add(f"labrea.interface.Interface.__init__:{nm}(…) receives the interface dispatch", ok, f, c.lineno, ast.unparse(c)[:80], nec)
+    # every site that builds or adopts a member dataset (in __init__ itself or in a helper it calls, directly or
+    # through a table of installers) hands it the interface's dispatch
+    ips_all = analyse_method(Ctx(repo), it, "__init__")
+    sites: Dict[tuple, list] = {}
+    dsp = ([a.arg for a in fn.args.posonlyargs + fn.args.args if a.arg == "dispatch"] or ["dispatch"])[0]
+    for p in ips_all:
+        for e in p.events:
+            if e.kind != "call":
+                continue
+            if e.text in ("labrea.dataset.dataset", "labrea.dataset.abstractdataset"):
+                s_ = sites.setdefault((e.file, e.line, e.text.rsplit(".", 1)[-1]), [True, ""])
+                s_[0] = s_[0] and any(a.key() == f"kw:dispatch({dsp})" for a in e.args)
+                s_[1] = ", ".join(a.key()[:40] for a in e.args)
+            if e.text == "set_dispatch":
+                s_ = sites.setdefault((e.file, e.line, "set_dispatch"), [True, ""])
+                s_[0] = s_[0] and len(e.args) == 1 and e.args[0].key() == dsp
+                s_[1] = ", ".join(a.key()[:40] for a in e.args)
+    n = len(sites)
+    for (fl_, ln_, nm), (ok, how) in sorted(sites.items()):
         if nm == "set_dispatch":
-            n += 1
-            ok = len(c.args) == 1 and ast.unparse(c.args[0]) == "dispatch"
-            res.add("labrea.interface.Interface.__init__:existing Dataset member gets set_dispatch(dispatch)", ok, f, c.lineno, ast.unparse(c)[:80], nec)
+            res.add("labrea.interface.Interface.__init__:existing Dataset member gets set_dispatch(dispatch)", ok, fl_, ln_, f"set_dispatch({how})", nec)
+        else:
+            res.add(f"labrea.interface.Interface.__init__:{nm}(…) receives the interface dispatch", ok, fl_, ln_, f"{nm}({how})", nec)
     if n < 4:
         res.add("labrea.interface.Interface.__init__:four member kinds handled", False, f, fn.lineno, f"only {n} dispatch-setting sites (annotation, function, Dataset, plain value)", nec)
     # every member that passes the underscore guard gets the dispatch, whatever its kind
-    ips = [p for p in analyse_method(Ctx(repo), it, "__init__") if p.status == "ret"]
+    ips = [p for p in ips_all if p.status == "ret"]
     ok = bool(ips)
     why = ""
     n_set = 0
@@ -1078,10 +1242,10 @@ def rule_CD(run: Run) -> RuleResult:
     ft_label = {q: q for q in FT}
     for cname, label in (("Switch", "labrea.conditional.Switch._lookup"), ("Coalesce", "labrea.coalesce.Coalesce._delegate")):
         ci_ = repo.cls(cname)
-        sel_ = _common_selector(ci_)
+        sel_ = _selector(repo, ci_)
         if sel_ is not None:
-            FT.add(f"{ci_.qualname}.{sel_}")
-            ft_label[f"{ci_.qualname}.{sel_}"] = label
+            FT.add(sel_.qualname)
+            ft_label[sel_.qualname] = label
     broad_ok = dict(BROAD_OK)
     for q_ in astu.default_handler_registrations(repo).get("EvaluateRequest", []):
         broad_ok[q_] = BROAD_OK["labrea.types._evaluate_request"]
@@ -1111,8 +1275,13 @@ def rule_CD(run: Run) -> RuleResult:
             broad = [t for t in types if t.split(".")[-1] in ("Exception", "BaseException")]
             if broad:
                 ok = q in broad_ok
-                res.add(f"{q}:except {','.join(types)} (broad)", ok, m.relpath, h.lineno,
-                        broad_ok.get(q, "broad handler outside the request handler / Value.evaluate"), nec)
+                why = broad_ok.get(q, "broad handler outside the request handler / Value.evaluate")
+                if not ok and _always_raises(h.body) and isinstance(h.body[-1], ast.Raise) and (
+                        h.body[-1].exc is None or (h.name and isinstance(h.body[-1].exc, ast.Name) and h.body[-1].exc.id == h.name and h.body[-1].cause is None)) \
+                        and not any(isinstance(x, (ast.Return, ast.Break, ast.Continue)) for x in astu.walk_no_nested(h)):
+                    ok = True
+                    why = "cleans up and re-raises the same exception: nothing is swallowed"
+                res.add(f"{q}:except {','.join(types)} (broad)", ok, m.relpath, h.lineno, why, nec)
                 continue
             catches_eval = [t for t in types if exc_is_subclass(repo, "KeyNotFoundError", t) and t.split(".")[-1] != "KeyNotFoundError"]
             if q in ft_of:
